@@ -452,6 +452,27 @@ add("v3000_endpts_search_untested", (V3, """    if endpts_match is None:
 """, ""), fires={"R-NONECHECK"}, note="a star-atom bond without ENDPTS ends in AttributeError")
 add("v3000_endpts_search_tested_by_truth", (V3, "    if endpts_match is None:", "    if not endpts_match:"), silent=True)
 
+# ---------------------------------------------------------------- the same thing written another way (probes of absence-based clauses)
+add("partition_copy_by_constructor", (CAN, "m_partitioned = m.copy()", "m_partitioned = nx.Graph(m)"), silent=True, note="nx.Graph(m) copies nodes, edges and data like m.copy()")
+add("parser_index_check_as_range", (PAR, "if index >= len(self._atoms):", "if not 0 <= index < len(self._atoms):"), silent=True)
+add("rank_table_by_enumerate", (CAN, """    unique_attr_seqs_to_partitions = dict(
+        zip(unique_attr_seqs, range(len(unique_attr_seqs)))
+    )""", "    unique_attr_seqs_to_partitions = {s: i for i, s in enumerate(unique_attr_seqs)}"), silent=True)
+add("hydrogen_isotopes_from_table", (EA, """    isotope_mass = 0
+    if element_symbol == "D":
+        element_symbol = "H"
+        isotope_mass = 2
+    elif element_symbol == "T":
+        element_symbol = "H"
+        isotope_mass = 3
+    return element_symbol, isotope_mass""", """    isotopes = {"D": 2, "T": 3}
+    if element_symbol in isotopes:
+        return "H", isotopes[element_symbol]
+    return element_symbol, 0"""), silent=True)
+add("version_by_plain_split", (RD, 'molfile_version = lines[3].rstrip().split(" ")[-1]', "molfile_version = lines[3].split()[-1]"), silent=True)
+add("v2000_index_validation_by_get", (V2, "    if index not in atom_attrs:\n        raise MolfileParserException(f'Unknown atom index {index + 1} in line \"{line}\"')",
+    "    if atom_attrs.get(index) is None:\n        raise MolfileParserException(f'Unknown atom index {index + 1} in line \"{line}\"')"), silent=True)
+
 # ---------------------------------------------------------------- spelling of the attribute names
 GA = "tucan/graph_attributes.py"
 add("attribute_names_respelled", [(GA, 'MASS = "mass"', 'MASS = "isotope_mass"'), (GA, 'CHG = "chg"', 'CHG = "formal_charge"'), (GA, 'BOND_TYPE = "bond_type"', 'BOND_TYPE = "order"'),
